@@ -24,7 +24,7 @@ import (
 )
 
 func TestMain(m *testing.M) {
-	h.Main(m, ref.SelfTestSM2, func() error { return ref.SelfTestSM4(false) }, derSelfTest, keySelfTest)
+	h.Main(m, ref.SelfTestSM2, func() error { return ref.SelfTestSM4(false) }, derSelfTest, keySelfTest, indepSelfTest)
 }
 
 // ---------------------------------------------------------------- randomness
